@@ -3,6 +3,7 @@
 -/
 import BorshModel.SchemaCodec
 import BorshModel.Lemmas.Totality
+import BorshModel.Lemmas.ValidateSound
 namespace Borsh
 
 /-- "a legal length width (0, 1, 2, 4 or 8 bytes and wide enough for the largest length)":
@@ -87,5 +88,19 @@ theorem C10_never_panics (c : Container) : c.validate.isPanic = false :=
 theorem C10_zero_size_never_panics (c : Container) (d : Name) :
     (isZeroSize c (c.defs.length + 1) d []).isPanic = false :=
   isZeroSize_noPanic c (c.defs.length + 1) d [] (pathOk_nil c) (by simp)
+
+/-- **When validation fails, the reported error names a declaration that really has that
+defect** (every container): a `missing` name is absent from the definitions; an
+`emptyLengthRange`, `tagNotPowerOfTwo`, `tagTooNarrow`, `tagTooWide` or `zstSequence` error names
+a dynamically sized sequence (or, for `tagTooWide`, an enum) whose own definition has exactly
+that fault. -/
+theorem C10_error_is_real (c : Container) (e : ValErr) (h : c.validate = .error e) :
+    localDefect c e :=
+  validateImpl_error_real c _ c.decl [] e h
+
+/-- a missing-definition error from the zero-size analysis names an absent declaration -/
+theorem C10_zero_size_missing_is_real (c : Container) (d m : Name)
+    (h : isZeroSize c (c.defs.length + 1) d [] = .error (.missing m)) : c.get m = none :=
+  isZeroSize_missing c _ d [] m h
 
 end Borsh
